@@ -11,6 +11,7 @@ import (
 	"encoding/json"
 	"fmt"
 	"log"
+	"math"
 	"os"
 	"sync"
 	"time"
@@ -221,6 +222,19 @@ func (s *LevelDBStore) GetBulkIterator(start, limit uint64) iterator.Iterator {
 	})
 }
 
+// bulkIteratorFrom is like GetBulkIterator, but without an upper limit.
+func (s *LevelDBStore) bulkIteratorFrom(start uint64) iterator.Iterator {
+	s.mu.RLock()
+	defer s.mu.RUnlock()
+	startKey := make([]byte, binary.Size(start))
+	binary.BigEndian.PutUint64(startKey, start)
+	return s.db.NewIterator(&util.Range{
+		Start: startKey,
+	}, &opt.ReadOptions{
+		DontFillCache: true,
+	})
+}
+
 // GetLog implements raft.LogStore.
 func (s *LevelDBStore) GetLog(index uint64, rlog *raft.Log) error {
 	s.mu.RLock()
@@ -321,6 +335,11 @@ func (s *LevelDBStore) StoreLogProto(msg *pb.RaftLog) error {
 // DeleteRange implements raft.LogStore.
 func (s *LevelDBStore) DeleteRange(min, max uint64) error {
 	iterator := s.GetBulkIterator(min, max+1)
+	if max == math.MaxUint64 {
+		// max+1 wraps around to 0, which would result in an empty range.
+		iterator.Release()
+		iterator = s.bulkIteratorFrom(min)
+	}
 	defer iterator.Release()
 
 	s.mu.Lock()
@@ -332,7 +351,11 @@ func (s *LevelDBStore) DeleteRange(min, max uint64) error {
 		if err := iterator.Error(); err != nil {
 			return err
 		}
-		batch.Delete(iterator.Key())
+		// The keys of the stable store ("stablestore-…") sort in between
+		// the (big endian) log indexes, but are not log entries.
+		if !bytes.HasPrefix(iterator.Key(), []byte("stablestore-")) {
+			batch.Delete(iterator.Key())
+		}
 		available = iterator.Next()
 	}
 	return s.db.Write(&batch, nil)
@@ -371,5 +394,11 @@ func (s *LevelDBStore) GetUint64(key []byte) (uint64, error) {
 	if err == leveldb.ErrNotFound {
 		return 0, nil
 	}
-	return binary.BigEndian.Uint64(v), err
+	if err != nil {
+		return 0, err
+	}
+	if len(v) != binary.Size(uint64(0)) {
+		return 0, fmt.Errorf("stable store value for key %q is not a uint64 (%d bytes)", key, len(v))
+	}
+	return binary.BigEndian.Uint64(v), nil
 }
